@@ -72,6 +72,19 @@ def events(seed, npts):
     for i in range(len(P)):
         ev.append({"kind": "zp", "P": bits(P[i]), "za": bits(za[i]), "zo": bits(zo[i]), "back": bits(back[i]),
                    "_m": {"P": float(P[i]), "z": float(za[i]), "form": "array"}})
+    # arrays that mix the end points with ordinary values: every element is judged
+    mixP = np.array([0.0, 5.0, 101325.0, 1e-3, 0.0, 22632.0])
+    za, zo = A.us_std_atm_altitude_from_pressure(mixP.copy()), O.us_std_atm_altitude_from_pressure(mixP.copy())
+    bk = A.us_std_atm_pressure_from_altitude(np.asarray(za).copy())
+    for i in range(len(mixP)):
+        ev.append({"kind": "zp", "P": bits(mixP[i]), "za": bits(za[i]), "zo": bits(zo[i]), "back": bits(bk[i]),
+                   "_m": {"P": float(mixP[i]), "z": float(za[i]), "form": "mixed array"}})
+    mixZ = np.array([np.inf, 5.0, 0.0, 86.0, np.inf, 119.0])
+    pa, po = A.us_std_atm_pressure_from_altitude(mixZ.copy()), O.us_std_atm_pressure_from_altitude(mixZ.copy())
+    bk = A.us_std_atm_altitude_from_pressure(np.asarray(pa).copy())
+    for i in range(len(mixZ)):
+        ev.append({"kind": "pz", "z": bits(mixZ[i]), "pa": bits(pa[i]), "po": bits(po[i]), "back": bits(bk[i]), "ser": 6000 + i,
+                   "_m": {"z": float(mixZ[i]), "P": float(pa[i]), "form": "mixed array"}})
     for form, arg in (("scalar", 0.0), ("0-d", np.asarray(0.0)), ("array", np.array([0.0, 5.0]))):
         za = np.asarray(A.us_std_atm_altitude_from_pressure(arg), dtype=float).reshape(-1)[0]
         zo = np.asarray(O.us_std_atm_altitude_from_pressure(arg), dtype=float).reshape(-1)[0]
